@@ -645,6 +645,40 @@ example : aroundSameTime (20 * nsPerSec) (10 * nsPerSec) = false ∧ aroundSameT
 open SafeNet.QuoteHist in
 example : (run .empty [(⟨100, 10, 10⟩, 1000), (⟨300, 12, 11⟩, 1000), (⟨200, 13, 10⟩, 1000)]).flagged = true := by decide
 
+/-! ## The quote hash (`PaymentQuote::hash` = Keccak-256 of signing bytes ++ key ++ signature; Keccak-256 is defined
+in `Base/Sha3`, tied to `evmlib::cryptography::hash` by the `qhash` lines of the correspondence run) -/
+
+theorem quote_hash_is_keccak (q : Quote) :
+    q.hash = SafeNet.Sha3.keccak256 (q.sigBytes ++ (q.pubKey ++ q.signature)) ∧ q.hash.length = 32 := by
+  refine ⟨by rw [Quote.hash, hashInput_eq], SafeNet.Sha3.keccak256_length _⟩
+
+/-- **The hash binds every signed field, the key and the signature** (what the payment contract is told was paid
+for): if Keccak-256 does not collide on the two hash inputs, two quotes with equal hashes and keys of equal length
+agree on content address, whole seconds, quoting metrics, rewards address, public key and signature. (The
+sub-second part of the timestamp is not in the hash either — K-i.) -/
+theorem quote_hash_binds (q q' : Quote) (hq : q.ok) (hq' : q'.ok) (hk : q.pubKey.length = q'.pubKey.length)
+    (hinj : SafeNet.Sha3.keccak256 q.hashInput = SafeNet.Sha3.keccak256 q'.hashInput → q.hashInput = q'.hashInput)
+    (h : q.hash = q'.hash) :
+    q.content = q'.content ∧ q.secs = q'.secs ∧ q.metrics = q'.metrics ∧ q.rewards = q'.rewards ∧
+    q.pubKey = q'.pubKey ∧ q.signature = q'.signature := by
+  have h := hinj h
+  rw [hashInput_eq, hashInput_eq, sigBytes_eq, sigBytes_eq] at h
+  simp only [List.append_assoc] at h
+  obtain ⟨hc, hr, hs, hm⟩ := hq
+  obtain ⟨hc', hr', hs', hm'⟩ := hq'
+  obtain ⟨e1, h⟩ := List.append_inj h (by rw [hc, hc'])
+  obtain ⟨e2, h⟩ := List.append_inj h (by rw [toLE_length, toLE_length])
+  have d1 := decode_encode q.metrics.toVal (q.rewards ++ (q.pubKey ++ q.signature)) (Metrics.toVal_wf _ hm)
+  have d2 := decode_encode q'.metrics.toVal (q'.rewards ++ (q'.pubKey ++ q'.signature)) (Metrics.toVal_wf _ hm')
+  rw [h, d2] at d1
+  simp only [Option.some.injEq, Prod.mk.injEq] at d1
+  have e3 : q.secs = q'.secs := by
+    have := congrArg fromLE e2
+    rwa [fromLE_toLE 8 _ (by simpa using hs), fromLE_toLE 8 _ (by simpa using hs')] at this
+  obtain ⟨e4, h4⟩ := List.append_inj d1.2.symm (by rw [hr, hr'])
+  obtain ⟨e5, e6⟩ := List.append_inj h4 hk
+  exact ⟨e1, e3, (Metrics.toVal_inj _ _ d1.1).symm, e4, e5, e6⟩
+
 end SafeNet.Props.C13
 
 #print axioms SafeNet.Props.C13.bytes_injective
@@ -680,3 +714,5 @@ end SafeNet.Props.C13
 #print axioms SafeNet.Props.C13.timestamp_not_fully_bound
 #print axioms SafeNet.Props.C13.fetched_quote_bound_to_responder
 #print axioms SafeNet.Props.C13.replayed_quote_not_attributed
+#print axioms SafeNet.Props.C13.quote_hash_is_keccak
+#print axioms SafeNet.Props.C13.quote_hash_binds
